@@ -196,6 +196,7 @@ impl<'a, 'tcx> Cx<'a, 'tcx> {
             ty::FnDef(d, a) => {
                 o.push(("fn", s(dps(tcx, *d))));
                 o.push(("fn_inst", s(dpsa(tcx, *d, a))));
+                o.push(("fn_callee", self.callee_of(*d, a)));
             }
             ty::Closure(d, _) => o.push(("closure", s(dps(tcx, *d)))),
             ty::Ref(_, inner, _) => {
@@ -404,6 +405,15 @@ impl<'a, 'tcx> Cx<'a, 'tcx> {
     fn callee(&self, func: &Operand<'tcx>) -> J {
         let tcx = self.tcx;
         if let Some((d, args)) = func.const_fn_def() {
+            self.callee_of(d, args)
+        } else {
+            J::Obj(vec![("indirect", self.operand(func)), ("fn_ty", s(tys(func.ty(self.body, tcx))))])
+        }
+    }
+
+    fn callee_of(&self, d: DefId, args: ty::GenericArgsRef<'tcx>) -> J {
+        let tcx = self.tcx;
+        {
             let mut o: Vec<(&'static str, J)> = vec![
                 ("def", s(dps(tcx, d))),
                 ("inst", s(dpsa(tcx, d, args))),
@@ -430,8 +440,6 @@ impl<'a, 'tcx> Cx<'a, 'tcx> {
                 })));
             }
             J::Obj(o)
-        } else {
-            J::Obj(vec![("indirect", self.operand(func)), ("fn_ty", s(tys(func.ty(self.body, tcx))))])
         }
     }
 
